@@ -722,3 +722,34 @@ func (c *Ctx) withHelpers(f *ssa.Function) []*ssa.Function {
 	add(f, 1)
 	return out
 }
+
+// argsAtCallSites: v is a parameter of an unexported, non-closure package helper; returns the values passed for it
+// at every call site of the helper (nil if v is not such a parameter or the helper has no callers).
+func (c *Ctx) argsAtCallSites(v ssa.Value) []ssa.Value {
+	p, ok := stripConv(v).(*ssa.Parameter)
+	if !ok {
+		return nil
+	}
+	f := p.Parent()
+	if f == nil || f.Parent() != nil || isExported(f) || !inSmtp(f) {
+		return nil
+	}
+	idx := -1
+	for i, q := range f.Params {
+		if q == p {
+			idx = i
+		}
+	}
+	if idx < 0 {
+		return nil
+	}
+	var out []ssa.Value
+	for _, cs := range c.callersOf(f) {
+		cc := callCommon(cs)
+		if cc == nil || idx >= len(cc.Args) {
+			return nil
+		}
+		out = append(out, cc.Args[idx])
+	}
+	return out
+}
